@@ -93,9 +93,7 @@ def usizeMax : Nat := 18446744073709551615
 
 /-- `str::parse::<usize>()` (also `u64`): optional `+`, one or more digits, overflow is an error. -/
 def parseUsize (w : Bytes) : Out Nat :=
-  let ds := match w with
-    | 43 :: tl => tl
-    | _ => w
+  let ds := if w.head? = some 43 then w.tail else w
   match ds with
   | [] => .err
   | _ :: _ =>
